@@ -370,7 +370,9 @@ fn main() {
         }
     }
 
-    if ctx.is_thorough() || socket_only {
+    // real loopback listeners: full size in the thorough tier, a small share on every quick run so that
+    // the UDP/TCP accept and receive loops (not only the request gate behind H3) are always observed
+    {
         sock::run(&ctx, &mut rep);
     }
 
